@@ -724,3 +724,44 @@ Fixpoint rexec_cached (cs : list rcmd) (st : dongle * option (Z * setting)) : li
 Definition air_obs (l : list airtx) : list Z :=
   concat (map (fun x => [s_ch (x_hw x); s_dr (x_hw x)] ++ (Z.of_nat (length (s_addr (x_hw x))) :: s_addr (x_hw x))
                         ++ (Z.of_nat (length (x_pk x)) :: x_pk x)) l).
+
+(* ---- answers of the shared dongle are VALUES ----
+   _SharedRadio.run: ack = self._radio.send_packet(data); self._rsp_queues[instance].put(ack), then on to the next
+   queued command (another instance's, possibly).  _SharedRadioInstance.send_packet: ack = self._rsp_queue.get(), and
+   the link's radio thread looks at ack.ack / ack.data some time later.  XDone i a: the shared thread finished a
+   transfer of instance i with answer a and queued the result; XRead i: instance i's thread takes its next result
+   and LOOKS at it (a get on an empty queue blocks: no effect).
+   xrun_value: the queued result is a fresh value per transfer (Crazyradio.send_packet makes a new _radio_ack).
+   xrun_cell:  one status cell per dongle, refilled for every transfer; the queues carry references to it. *)
+Inductive xev := XDone (inst : Z) (a : resp) | XRead (inst : Z).
+
+Definition qupd {A} (q : Z -> A) (i : Z) (v : A) : Z -> A := fun j => if j =? i then v else q j.
+
+Definition xstep_value (st : (Z -> list resp) * list (Z * resp)) (e : xev) : (Z -> list resp) * list (Z * resp) :=
+  let '(q, log) := st in
+  match e with
+  | XDone i a => (qupd q i (q i ++ [a]), log)
+  | XRead i => match q i with
+               | [] => (q, log)
+               | a :: t => (qupd q i t, log ++ [(i, a)])
+               end
+  end.
+Definition xrun_value (evs : list xev) : (Z -> list resp) * list (Z * resp) :=
+  fold_left xstep_value evs (fun _ => [], []).
+
+Definition xstep_cell (st : resp * (Z -> nat) * list (Z * resp)) (e : xev) : resp * (Z -> nat) * list (Z * resp) :=
+  let '(cell, q, log) := st in
+  match e with
+  | XDone i a => (a, qupd q i (S (q i)), log)
+  | XRead i => match q i with
+               | O => (cell, q, log)
+               | S n => (cell, qupd q i n, log ++ [(i, cell)])
+               end
+  end.
+Definition xrun_cell (evs : list xev) : list (Z * resp) :=
+  snd (fold_left xstep_cell evs (RNone, fun _ => O, [])).
+
+Definition reads_of (i : Z) (log : list (Z * resp)) : list resp :=
+  map snd (filter (fun x => fst x =? i) log).
+Definition dones_of (i : Z) (evs : list xev) : list resp :=
+  flat_map (fun e => match e with XDone j a => if j =? i then [a] else [] | XRead _ => [] end) evs.
